@@ -49,8 +49,9 @@ type Case struct {
 	Prepare       bool        `json:"prepare_stmt"`
 	DisableNested bool        `json:"disable_nested"`
 	SkipDefault   bool        `json:"skip_default_tx"`
-	PoolShim      bool        `json:"pool_shim"` // gorm is opened on a ConnPool wrapper (ConnPoolBeginner path) instead of *sql.DB
-	ErrClass      string      `json:"err_class,omitempty"` // injected driver errors wrap this well-known error (simdrv.ClassError)
+	PoolShim      bool        `json:"pool_shim"`            // gorm is opened on a ConnPool wrapper (ConnPoolBeginner path) instead of *sql.DB
+	HandleErr     bool        `json:"handle_err,omitempty"` // the handle the program starts from already carries an error (an earlier failure)
+	ErrClass      string      `json:"err_class,omitempty"`  // injected driver errors wrap this well-known error (simdrv.ClassError)
 	MaxSites      int         `json:"max_sites"`
 	Pairs         bool        `json:"pairs"`
 	Pick          int64       `json:"pick_seed"`
@@ -169,6 +170,7 @@ func (Prop) Gen(r *core.Rand, tier string) interface{} {
 	if r.Chance(40) {
 		c.ErrClass = r.Pick(simdrv.Classes)
 	}
+	c.HandleErr = r.Chance(8)
 	return c
 }
 
@@ -223,6 +225,7 @@ func (Prop) Shrink(ci interface{}) []interface{} {
 		func(v *Case) bool { x := v.SkipDefault; v.SkipDefault = false; return x },
 		func(v *Case) bool { x := v.PoolShim; v.PoolShim = false; return x },
 		func(v *Case) bool { x := v.ErrClass != ""; v.ErrClass = ""; return x },
+		func(v *Case) bool { x := v.HandleErr; v.HandleErr = false; return x },
 	} {
 		v := *c
 		if f(&v) {
@@ -273,6 +276,8 @@ func render(m map[string]string) string {
 	}
 	return b.String()
 }
+
+var errHandle = fmt.Errorf("earlier failure on this handle")
 
 type panicVal struct{ id int }
 type blockErr struct{ id int }
@@ -786,16 +791,21 @@ func (p Prop) exec(c *Case, faults []*ops.Fault) (*result, error) {
 	ctx, cancel := context.WithCancel(context.Background())
 	defer cancel()
 	sr, err := ops.RunMulti(o, drvFaults, nil, func(e *env.Env) ops.Result {
-		r = &run{c: c, e: e, worlds: []world{{map[string]string{"base": "0"}}}, cancelMode: cf != nil}
+		r = &run{c: c, e: e, worlds: []world{{map[string]string{"base": "0"}}}, cancelMode: cf != nil || c.HandleErr}
 		for _, f := range drvFaults {
 			if f.Drv != nil {
 				r.faults = append(r.faults, f.Drv)
 			}
 		}
 		h := e.DB
+		if c.HandleErr {
+			// a reusable handle on which an earlier step failed
+			h = h.Session(&gorm.Session{})
+			h.AddError(errHandle)
+		}
 		first := 0
 		if cf != nil || c.ctxProbe {
-			h = e.DB.WithContext(ctx)
+			h = h.WithContext(ctx)
 			first = pool.Calls()
 			if cf != nil {
 				pool.Cancel = cancel
@@ -845,6 +855,16 @@ func (p Prop) exec(c *Case, faults []*ops.Fault) (*result, error) {
 		return nil, sr.DumpErr
 	}
 	got := kvDump(sr.D1)
+	if c.HandleErr {
+		// nothing may be written or left open from a handle that already failed,
+		// and the caller must get an error
+		if want := render(map[string]string{"base": "0"}); got != want {
+			res.viol = &core.Violation{Class: "durable_state", Key: "handle_error", Detail: fmt.Sprintf("the handle already carried an error, yet the table contains {%s} (%s)", got, r.cfgKey())}
+		} else if c.Tree != nil && r.topReturned && r.topErr == nil {
+			res.viol = &core.Violation{Class: "swallowed_error", Key: "handle_error|transaction", Detail: "the handle already carried an error but Transaction returned nil (" + r.cfgKey() + ")"}
+		}
+		return res, nil
+	}
 	if cf != nil {
 		if !cf.Fired {
 			return res, nil
@@ -914,7 +934,7 @@ func (p Prop) Run(ci interface{}, focus *core.Violation) *core.Outcome {
 		if len(fs) > 0 {
 			var names []string
 			for _, f := range fs {
-				names = append(names, f.String())
+				names = append(names, f.HashName())
 			}
 			h = ops.FaultedHash(baseHash, strings.Join(names, "+"), res.sr, kvDump(res.sr.D1), fmt.Sprint(res.panicked))
 		}
